@@ -56,6 +56,7 @@ type Gen struct {
 	ng  int // groups created so far
 	nms []string
 	bud int // remaining node budget
+	N   bool // the pattern will be compiled with ExplicitCapture
 }
 
 func (g *Gen) pick(n int) int { return g.r.IntN(n) }
@@ -146,8 +147,11 @@ func nullable(t *Tree) bool {
 	return true // anchors, look-arounds, empty, optset
 }
 
-func stripWrappers(t *Tree) *Tree {
-	for t.N.Op == "opt" || t.N.Op == "atom" || (t.N.Op == "cat" && len(t.Kids) == 1) {
+// stripWrappers removes the nodes the reducer sees through when it multiplies directly nested
+// quantifiers; under ExplicitCapture an unnamed group is an ordinary non-capturing group.
+func stripWrappers(t *Tree, explicitCapture bool) *Tree {
+	for t.N.Op == "opt" || t.N.Op == "atom" || (t.N.Op == "cat" && len(t.Kids) == 1) ||
+		(explicitCapture && t.N.Op == "grp" && t.N.Nm == "") {
 		t = t.Kids[0]
 	}
 	return t
@@ -164,7 +168,12 @@ func (g *Gen) quant(k *Tree) *Tree {
 		return Rep(k, 0, 1, lazy)
 	case 3:
 		m := g.pick(g.c.MaxRepBound + 1)
-		return Rep(k, m, m+g.pick(3), lazy)
+		mx := m + g.pick(3)
+		if mx == 0 && !g.c.Nullable {
+			// x{0} vanishes in the reducer and can leave a quantified item directly under another quantifier
+			mx = 1
+		}
+		return Rep(k, m, mx, lazy)
 	case 4:
 		m := 1 + g.pick(g.c.MaxRepBound)
 		return Rep(k, m, m, lazy)
@@ -228,7 +237,7 @@ func (g *Gen) item(d int) *Tree {
 		a = g.altNode(d - 1)
 	}
 	if g.chance(0.35) {
-		inner := stripWrappers(a)
+		inner := stripWrappers(a, g.N)
 		okNull := g.c.Nullable || !nullable(a)
 		okNest := g.c.NestedRep || inner.N.Op != "rep"
 		if okNull && okNest && a.N.Op != "ref" {
